@@ -6,6 +6,7 @@
 //! S: delivered events never exceed raw + permitted replay; the alias limits reject exactly when the
 //!    independent expansion size exceeds them; peak heap (counting allocator) stays within a fixed
 //!    multiple of input size + delivered events.
+//!    Also: Budget::max_events / max_nodes bound what is delivered, replayed events included.
 use crate::alloc_count;
 use crate::ctx::Ctx;
 use crate::live::{self, PumpOpts};
